@@ -49,6 +49,14 @@ claim("C07",
       "Line-level theorems for every header line shape (header_line: name kept, value stripped, wire order; continuation_line; continuation_first_rejected; no_colon_rejected; empty_name_rejected) and first line shape (first_line_request / first_line_other / first_line_short, minorVersion_iff: exactly HTTP/1.<digit>), extractLines_nonempty and readPayload_errors_closed (every payload gives a result or PacketError). The composition over a whole rendered message (read_render) is NOT yet a theorem; it is decided by the oracle that compares the parsed result with the header list the generator wrote, and by correspondence on well-formed and single-defect corrupted messages.",
       BASE_NOTE + "PARTIAL: read_render (whole-message composition of the line-level theorems through the blank-line scan) is covered by oracle + correspondence only. h11's maybe_extract_lines is modelled from its source.",
       "Lean 4 proofs per line shape + closure theorem; property oracle (generator's own header list) and differential correspondence for whole messages", "5 C07")
+claim("C09",
+      "Theorem parseLines_records: for EVERY list of lines (any interleaving of sections incl. repeated headers, labels, sys lines, comments, blank lines, skipped parameters) a successful run of the model of _parse_file returns exactly specDb - the database defined line by line without parser state: a section exists iff it has a header, and holds in file order one record per sig line with its enclosing section (last header before it), the most recent label with its sys list, the structured signature of its text, the raw text and the 1-based line number. Corollaries record_iff_sig_line (record <-> sig line, both directions), recordAt_fields, len_eq_sig_lines, records_in_file_order. Tied to Database.load / iter_values / len by grammar-generated files judged against the model AND against the generator's own record list, the shipped p0f.fp, and every signature / label text through the structured-signature ops.",
+      BASE_NOTE + "PARTIAL: 'each structured signature denotes what its text denotes' is proved for option layouts and quirk lists (C18 dumpLayout_parse / dumpQuirks_parse) and for ranges (C10 parseTcpSig_ranges); the whole-signature parse/render round trip is decided by correspondence over the full grammars, not yet by a theorem. Texts are ASCII; universal-newline reading is modelled (pyLines).",
+      "Lean 4 refinement proof (parser state machine = stateless per-line specification, invariant by induction over the lines) + differential correspondence + generator oracle", "5 C09")
+claim("C10",
+      "Theorems parseLines_closed (for EVERY list of lines the model of _parse_file returns a database or ParsingError(n) with 1 <= n <= number of lines; IndexError and plain DatabaseError are unreachable - stepKind_error under the parser invariant), error_line_correct (the reported line is the first one the parser cannot accept: the lines before it load, and it fails in the state they lead to), load_closed (Database.load: success, ParsingError, or DatabaseError exactly for an unreadable file), blank_and_comment_ok, and range soundness parseTcpSig_ranges / parseMtuSig_range / parseTtl_range / parseWindow_range / parseOptionsField_range (whatever the parsers accept lies in the documented ranges, known keywords only, no quirk illegal for the version). Tied to the code by single-fault corruptions with generator-known faulty line, all sequences of <= 4 line kinds, unreadable paths, non-ASCII texts (category oracle) and corrupted signature texts.",
+      BASE_NOTE + "Texts compared with the model are ASCII; non-ASCII inputs are judged by the exception-category oracle only. open()/decoding failures are modelled as one 'unreadable' outcome.",
+      "Lean 4 invariant proof (error closure, error line, range soundness) + differential correspondence + fault-line oracle", "5 C10")
 
 ALL = [f"C{i:02d}" for i in range(1, 19)]
 checks = []
